@@ -403,6 +403,7 @@ func (C11Iso) Events(env world.Env, mm mc.Model) []string {
 	evs = append(evs, "MakePrimaryOther:O", "TransferOwnName:N")
 	// C1, whom O has blocked, writes to O - by address and by O's name: O's inbox is O's, and O has shut C1 out of it
 	evs = append(evs, "NotifyO:C1", "NotifyOByName:C1")
+	evs = append(evs, "AddRecordToN:O", "DelRecordOfO:N") // O adds a record under its name that points at N; N is not the name's owner
 	evs = append(evs, "AddClaimerC1:N")    // N (once it is a provider) authorises the very claimer O has authorised, and may revoke it again - for itself
 	evs = append(evs, "UpdateFeedOSame:N") // N re-submits exactly the value O's feed already holds
 	evs = append(evs, "PostSameFile:N")    // N posts the same content as O (in O's posting block: same content and start, other owner)
@@ -466,6 +467,10 @@ func (C11Iso) Apply(env world.Env, mm mc.Model, ev string) mc.Step {
 		msg = storagetypes.NewMsgSetProviderTotalSpace(who, 777)
 	case "AddClaimer":
 		msg = storagetypes.NewMsgAddClaimer(who, w.A("X").Bech)
+	case "AddRecordToN":
+		msg = rnstypes.NewMsgAddRecord(who, "owner.jkl", "pay", w.A("N").Bech, "{}")
+	case "DelRecordOfO":
+		msg = rnstypes.NewMsgDelRecord(who, "pay.owner.jkl")
 	case "AddClaimerC1":
 		msg = storagetypes.NewMsgAddClaimer(who, w.A("C1").Bech)
 	case "RemoveClaimer":
